@@ -140,6 +140,21 @@ class CompositeValue(Object):
         # type: (list[Object]) -> None
         self.values = values
 
+    @property
+    def _attrs(self):
+        # type: () -> Attributes
+        # used as a base class ('class S(K)' with K bound on several paths):
+        # the first alternative that has the attribute wins, as in get_attr
+        result = {}  # type: Attributes
+        for v in reversed(self.values):
+            result.update(getattr(v, '_attrs', {}))
+        return result
+
+    def call(self, ctx):
+        # type: (EvalCtx) -> Object | None
+        values = [v.call(ctx) for v in self.values if hasattr(v, 'call')]  # type: ignore[attr-defined]
+        return CompositeValue([v for v in values if v])
+
     def attr_list(self, ctx):
         # type: (EvalCtx) -> set[str]
         result = set()  # type: set[str]
